@@ -60,6 +60,7 @@ class DaemonLayer:
             # a sanitizer report is undefined behaviour of the real code on this very input: a failing input for any property
             if not s and (cls.startswith('asan') or cls == 'ubsan'): s = 'undefined behaviour in the real code (sanitizer): ' + cls
             if s: V.append(dict(sig=s, at=len(sim['ops']) - 1, detail=sim['stderr'][-1200:]))
+        V.extend(sleeping_calls(sim, 'C05/C04'))
         if self.leaks:
             td = sim.get('teardown')
             if td is not None and 'DIED' in td:
@@ -128,6 +129,20 @@ class DaemonLayer:
         return 1 if (V or diffs or sim['died']) else 0
 
 
+
+def sleeping_calls(sim, prop='C05'):
+    """connect() or read() issued on a descriptor that was never made non-blocking: in the kernel the single-threaded daemon sleeps
+    there (a connect to a host that drops SYNs: minutes), and every client and every other device waits.  The simulated kernel
+    keeps O_NONBLOCK per descriptor as fcntl sets it and marks such calls."""
+    out = []
+    for i, co in enumerate(sim['couts']):
+        for l in co:
+            if l.endswith(' BLOCKS') and (l.startswith('Y connect') or l.startswith('Y read')):
+                out.append(dict(sig='%s the daemon sleeps in %s() on a blocking descriptor: all clients and devices wait' % (prop, l.split()[1]), at=i, line=l)); break
+        if out: break
+    return out
+
+
 def client_deaths(cls):
     # deaths attributable to client input: the fatal range hook (exit) and asserts inside hostlist.c
     if cls == 'exit' or cls == 'hang' or cls.startswith('assert:hostlist') or 'client' in cls: return 'C06 daemon killed: ' + cls
@@ -157,14 +172,19 @@ def D(*a, **k):
     return DaemonLayer(list(a), **k)
 
 
-PROPS['C01'] = dict(layers=[D(P.p_c01, P.p_c06_toolong, profile=dict(faults=0.4, longline=0.002))], planned=['C01_validated (alias expansion)', 'C01_history_free at daemon level'])
+PROPS['C01'] = dict(layers=[D(P.p_c01, P.p_c06_toolong, profile=dict(faults=0.4, longline=0.002))],
+                    refines=[(r'^(Y write [23]\d\d\d |O dev \d+ to |O dev \d+ queue)', 'the actions queued or the plugs addressed on the wire are not what the request prescribes for this input (C01_appends, C01_wire_*)')], planned=['C01_validated (alias expansion)', 'C01_history_free at daemon level'])
 PROPS['C02'] = dict(layers=[D(P.p_c02_c03, P.p_c02_retry, P.p_c02_wire, profile=dict(faults=0.5))], planned=['C02_sound end-to-end (102 ⇒ every target commanded and answered ok)', 'C02_cli'])
 PROPS['C03'] = dict(layers=[D(P.p_c02_c03, P.p_c03_justified, profile=dict(faults=0.5))], planned=['C03_justified over whole runs', 'C03_no_memory'])
-PROPS['C04'] = dict(layers=[D(P.p_c04, P.p_c04_quit, P.p_c04_deadline, P.p_c04_xpoll, P.p_c15, profile=dict(hup=0.04))], planned=['C04_one_reply', 'C04_no_wedge', 'C04_tenure', 'C04_bound_partial'])
+PROPS['C04'] = dict(layers=[D(P.p_c04, P.p_c04_quit, P.p_c04_deadline, P.p_c04_xpoll, P.p_c15, profile=dict(hup=0.04)),
+                          # long-lived sessions: thousands of request lines on one connection (the input ring wraps many times)
+                          D(P.p_c04, P.p_c04_quit, P.p_c15, profile=dict(faults=0.1, quit=0.003, maxclients=3, calm=0.05), quick=(8, 2500), thorough=(128, 6000))], planned=['C04_one_reply', 'C04_no_wedge', 'C04_tenure', 'C04_bound_partial'])
 PROPS['C06'] = dict(layers=[D(P.p_c04, P.p_c15, P.p_c06_served, P.p_f23, profile=dict(fatal=0.03, faults=1.5, maxclients=6), deaths=client_deaths), D(P.p_c04, P.p_c15, P.p_c06_toolong, profile=dict(fatal=0.02, faults=0.1, quit=0.003, maxclients=3, calm=0.05, longline=0.003), deaths=client_deaths, quick=(8, 2500), thorough=(128, 6000))], planned=['C06_total over lines >= CP_LINEMAX (203)', 'C06_reap'])
 PROPS['C07'] = dict(layers=[D(P.p_c20, profile=dict(garbage=0.08, pF6=0.03, calm=0.25, flood=0.004), deaths=device_deaths)], planned=['C07_no_abort assembled over whole runs'])
-PROPS['C08'] = dict(layers=[D(P.p_c08, P.p_c01, profile=dict(faults=0.5))], planned=['composition of the refinement over postPoll sequences with reconnects'])
-PROPS['C09'] = dict(layers=[D(P.p_c09_write, P.p_c09_read, profile=dict(garbage=0.05, flood=0.004, longline=0.001))], planned=['cbuf_refines (index-level model of cbuf.c: ring positions)'])
+WIRE = r'^(Y write [23]\d\d\d |O dev \d+ to )'
+PROPS['C08'] = dict(layers=[D(P.p_c08, P.p_c01, profile=dict(faults=0.5))],
+                    refines=[(WIRE, 'the bytes sent to a device are not what the script prescribes for this input (reference semantics: C08_refines, C08_sends_are_script)')], planned=['composition of the refinement over postPoll sequences with reconnects'])
+PROPS['C09'] = dict(layers=[D(P.p_c09_write, P.p_c09_read, P.p_c04_quit, profile=dict(garbage=0.05, flood=0.004, longline=0.001))], planned=['cbuf_refines (index-level model of cbuf.c: ring positions)'])
 PROPS['C10'] = dict(layers=[D(P.p_c10)], planned=['C10_head_only', 'C10_transcript', 'C10_fifo'])
 PROPS['C12'] = dict(layers=[D(P.p_c12, P.p_c12_disconnect, P.p_c04, P.p_c02_c03, profile=dict(pF6=0.02, calm=0.3))], planned=['C12_ioerr', 'C12_recover_partial'])
 PROPS['C13'] = dict(layers=[config.ConfigLayer()], planned=['C13_listings at daemon level (nodes / device replies) — the replies themselves are mirrored in Pm.Daemon and compared on every run'])
@@ -174,8 +194,8 @@ PROPS['C19'] = dict(layers=[redfish.RedfishLayer()], planned=['C19_bad_input (se
 PROPS['C20'] = dict(layers=[D(P.p_c20, profile=dict(pF6=0.02, maxclients=6), leaks=True, deaths=shutdown_deaths)], planned=['C20_refcount', 'C20_objects', 'C20_shutdown (signal path / teardown not modelled yet)'])
 PROPS['C15'] = dict(layers=[D(P.p_c15, P.p_c04, P.p_c04_quit, profile=dict(garbage=0.06, maxclients=6))], planned=['C15_stream over whole runs (needs a ghost record of bytes written in earlier passes)', 'cleanliness of the data-carrying lines through the hostlist mirror'])
 PROPS['C16'] = dict(layers=[libpm.LibPmLayer()], planned=['memory safety of the remaining C is observed under ASan, not proved'])
-PROPS['C17'] = dict(layers=[speclayer.SpecLayer()], planned=['specOK_sound: the static predicate implies no send reaches an undefined conversion and every $N read is a defined group, over the interpreter model'])
-PROPS['C11'] = dict(layers=[D(P.p_c11, P.p_c11_events, P.p_c11_tele, P.p_f23, profile=dict(maxclients=6))], planned=['C11_routing', 'C11_departure', 'C11_backpressure'])
+PROPS['C17'] = dict(layers=[speclayer.SpecLayer(), D(P.p_c08, P.p_c17_sends, profile=dict(faults=0.5))], planned=['the flat reference program has no contexts: soundness is stated over the ExecCtx machine (Reach) and tied to it by C08_pass_is_run'])
+PROPS['C11'] = dict(refines=[(r'^(C \d+ |A \d+ |Y write 1\d\d\d )', "a client's record, result cells or output are not what its own request and its own actions determine (C11_routing, C11_result_scope)")], layers=[D(P.p_c11, P.p_c11_events, P.p_c11_tele, P.p_f23, profile=dict(maxclients=6))], planned=['C11_routing', 'C11_departure', 'C11_backpressure'])
 
 
 def all_layers():
@@ -281,6 +301,7 @@ class PairedLayer:
                 d['replay'] = dict(layer=self.name, seed=seed, N=N, sick=sim['sick_mode'], at=d['at']); diffs.append(d)
             trs.append(trace.parse(sim))
             if sim['died']: V.append(dict(sig='C05 daemon killed: ' + daemon.death_class(sim['stderr']), at=len(sim['ops']) - 1, detail=sim['stderr'][-800:]))
+            V.extend(sleeping_calls(sim))
         st['sick mode ' + sims[1]['sick_mode']] += 1
         views = [preds.client_views(t) for t in trs]
         for c in sims[0]['clients']:
